@@ -44,6 +44,8 @@ class _ILoc:
         # DataFrame row selection
         if isinstance(key, (builtins.int, np.integer)):
             raise Unsupported("DataFrame.iloc[int]")
+        if isinstance(key, slice):
+            key = slice(*[builtins.int(b) if isinstance(b, Sym) else b for b in (key.start, key.stop, key.step)])   # forks
         return FakeDF({k: v[key] for k, v in self.o.cols.items()}, index=self.o.index[key])
 
 
@@ -279,10 +281,92 @@ class FakeDF:
     def groupby(self, by):
         return _GroupBy(self, by)
 
+    def sort_values(self, by, inplace=False, ascending=True, kind=None, **kw):
+        """stable sort by the listed columns (first = primary); symbolic keys fork through the lexsort model"""
+        if not ascending or kw:
+            raise Unsupported("sort_values options")
+        by = [by] if isinstance(by, str) else list(by)
+        keys = [self.cols[k] for k in reversed(by)]
+        if any(arrays.has_sym(k) for k in keys):
+            order = np.asarray(arrays.sym_lexsort(keys), dtype=int)
+        else:
+            order = np.lexsort(keys)
+        cols = {k: v[order] for k, v in self.cols.items()}
+        idx = self.index.values[order]
+        if inplace:
+            self.cols, self._index = cols, idx
+            return None
+        return FakeDF(cols, index=idx)
+
+    def itertuples(self, index=True, name="Pandas"):
+        import collections
+        fields = (["Index"] if index else []) + [str(c) for c in self.cols]
+        T = collections.namedtuple(name or "Pandas", fields, rename=True)
+        idx = self.index.values
+        for r in range(len(self)):
+            vals = ([idx[r]] if index else []) + [v[r] for v in self.cols.values()]
+            yield T(*vals)
+
+    def to_parquet(self, path, **kw):
+        from . import fakefs
+        F = fakefs.fs()
+        f = F.files.setdefault(str(path), fakefs.File(False))
+        F.mutate("to_parquet", str(path))
+        f.exists, f.size, f.content = True, 128, {"parquet": self.copy()}
+
+    def to_dict(self, orient="dict"):
+        if orient != "series":
+            raise Unsupported("to_dict orient")
+        return {k: FakeSeries(v, self.index.values, k) for k, v in self.cols.items()}
+
+
+class NamedAgg:
+    def __init__(self, column, aggfunc):
+        self.column, self.aggfunc = column, aggfunc
+
 
 class _GroupBy:
     def __init__(self, df, by):
         self.df, self.by = df, by
+
+    def _groups(self):
+        col = self.df.cols[self.by]
+        keys = arrays.concretize_values(np.asarray(arrays._plain(col), dtype=object)) if arrays.has_sym(col) else np.asarray(col)
+        keys = [k.item() if isinstance(k, np.generic) else k for k in keys.tolist()]
+        out = {}
+        for pos, k in enumerate(keys):
+            out.setdefault(k, []).append(pos)
+        return sorted(out.items())
+
+    def aggregate(self, func=None, **named):
+        """groupby(col).aggregate(name=NamedAgg(column, 'count'|'min'|'max'|'sum'|'mean'), ...) or aggregate('mean'): one row per
+        group label in ascending order, indexed by the label"""
+        groups = self._groups()
+        if func is not None and not named:
+            named = {c: NamedAgg(c, func) for c in self.df.cols if c != self.by}
+        res = {}
+        for name, agg in named.items():
+            col = self.df.cols[agg.column]
+            vals = []
+            for _, pos in groups:
+                sel = [col[i] for i in pos]
+                if agg.aggfunc == "count":
+                    vals.append(len(sel))
+                elif agg.aggfunc == "min":
+                    vals.append(arrays.sym_min(*sel) if len(sel) > 1 else sel[0])
+                elif agg.aggfunc == "max":
+                    vals.append(arrays.sym_max(*sel) if len(sel) > 1 else sel[0])
+                elif agg.aggfunc in ("sum", "mean"):
+                    t = sel[0]
+                    for e in sel[1:]:
+                        t = t + e
+                    vals.append(t if agg.aggfunc == "sum" else t / len(sel))
+                else:
+                    raise Unsupported(f"groupby aggregate {agg.aggfunc!r}")
+            res[name] = arrays.mk(vals) if any(isinstance(v, Sym) for v in vals) else np.array(vals)
+        return FakeDF(res, index=np.array([k for k, _ in groups]))
+
+    agg = aggregate
 
     def cumcount(self):
         keys = arrays.concretize_values(np.asarray(arrays._plain(self.df.cols[self.by]), dtype=object)) if arrays.has_sym(self.df.cols[self.by]) else np.asarray(self.df.cols[self.by])
@@ -297,6 +381,7 @@ class _GroupBy:
 class PDFacade:
     DataFrame = FakeDF
     Series = FakeSeries
+    NamedAgg = NamedAgg
 
     def __getattr__(self, n):
         raise Unsupported(f"pandas.{n} is not modelled")
